@@ -21,9 +21,9 @@ import vlib
 
 # dkv tuning of the replay / trace arms: memtable size per generation in turn (bytes; an entry of the reference
 # handler is ~35 bytes, every event writes two), 0 = the repo's default sizes
-DKV = dict(MemSizes=[1, 70, 40, 140, 0, 100], SmallestLevel=1)
+DKV = dict(MemSizes=[1, 70, 40, 140, 0, 100], SmallestLevel=1, SwapDelayUs=3000)
 
-HARNESS_KEYS = ("KeyGroups", "Mode", "Runs", "Kills", "Ckpts", "BudgetSec", "MemSizes", "SmallestLevel", "MaxSizeAmpPct", "Counts")
+HARNESS_KEYS = ("KeyGroups", "Mode", "Runs", "Kills", "Ckpts", "BudgetSec", "MemSizes", "SmallestLevel", "MaxSizeAmpPct", "SwapDelayUs", "Counts")
 
 
 def need(c, label, counters, *names):
@@ -114,7 +114,7 @@ def traces(c, m, consts, runs, seed, label, extra, must_count):
 def replay_trace(c, m, payload):
     cfg = payload["config"]
     consts = {k: v for k, v in cfg.items() if k not in HARNESS_KEYS}
-    extra = {k: cfg[k] for k in ("MemSizes", "SmallestLevel", "MaxSizeAmpPct", "Counts") if k in cfg}
+    extra = {k: cfg[k] for k in ("MemSizes", "SmallestLevel", "MaxSizeAmpPct", "SwapDelayUs", "Counts") if k in cfg}
     traces(c, m, consts, cfg["Runs"], payload["seed"], "replay", extra, ())
 
 
